@@ -94,7 +94,7 @@ Qed.
 
 (* what deactivate / buf_process make of module j and write into the record depends on module j only *)
 Lemma buf_process_items c i w : snd (buf_process c now i w) =
-  match shut (w_mod w i) with Some _ => cancelled i c (w_mod w i) ++ [IReset i now (inc (w_mod w i) + 1)] | None => [] end.
+  match shut (w_mod w i) with Some _ => cancelled i c (w_mod w i) ++ [IReset i now (inc (w_mod w i) + 1)] ++ rpanic c i | None => [] end.
 Proof. unfold buf_process, shutdown_part. cbn [w_mod set_buf set_fes]. destruct (shut (w_mod w i)); reflexivity. Qed.
 
 Lemma activate_local w w' : w_mod w j = w_mod w' j -> w_mod (activate now j w) j = w_mod (activate now j w') j.
